@@ -139,7 +139,7 @@ Print Assumptions C17_ext_executing_disjoint_serial.
 
 (* thread backend: after close() during an evaluation the thread keeps executing with resources that are handed out again (F52) *)
 Theorem C17_ext_zombie_shares_refuted :
-  let s := xrun 1 2 true (xinit 1 [100]%Z) [XSubmit 1; XTake 0; XRun 0; XClose; XSubmit 1; XTake 1; XRun 1] in
+  let s := xrun 1 2 true (xinit 1 [100]%Z) [XSubmit 1; XTake 0; XRun 0; XStart 0; XClose; XSubmit 1; XTake 1; XRun 1; XStart 1] in
   xerr s = false /\ map xph (xjobs s) = [XZombie; XRunning] /\ xexec (xget s 0) = [100]%Z /\ xexec (xget s 1) = [100]%Z.
 Proof. exact zombie_shares_refuted. Qed.
 Print Assumptions C17_ext_zombie_shares_refuted.
@@ -151,16 +151,22 @@ Theorem C17_ext_worker_bound_per_submit : forall q0 pop W thr sched,
 Proof. intros q0 pop W thr sched s. apply (xworker_bound q0 pop W). apply xinv_run, xinv_init. Qed.
 Print Assumptions C17_ext_worker_bound_per_submit.
 
-(* ... and not across submits (F21; not part of the statement of C17) *)
+(* ... and not across submits on the serial backend (F21; not part of the statement of C17) *)
 Theorem C17_ext_worker_bound_across_submits_refuted :
   let s := xrun 1 1 false (xinit 1 [1; 2]%Z) [XSubmit 1; XTake 0; XRun 0; XSubmit 1; XTake 1; XRun 1] in
   map xph (xjobs s) = [XRunning; XRunning] /\ map xres (xjobs s) = [[1]; [2]]%Z.
 Proof. exact worker_bound_across_submits_refuted. Qed.
 Print Assumptions C17_ext_worker_bound_across_submits_refuted.
 
-(* no deadlock, for an evaluator that the (repaired) constructor accepts: 1 <= pop <= |queue| *)
+(* thread backend: the pool bounds the run-functions that execute (cancelled ones included) by num_workers, across submits too *)
+Theorem C17_ext_thread_pool_bound : forall q0 pop W sched, xbusy (xrun pop W true (xinit pop q0) sched) <= W.
+Proof. intros. apply pool_bound. Qed.
+Print Assumptions C17_ext_thread_pool_bound.
+
+(* no deadlock, for an evaluator that the (repaired) constructor accepts: 1 <= pop <= |queue|: while a job is unfinished a job
+   can take / be admitted / be started by the pool / return, or the thread of a cancelled job can return *)
 Theorem C17_ext_progress : forall q0 pop W thr s0 sched, xnew pop q0 = Some s0 -> 1 <= W ->
-  let s := xrun pop W thr s0 sched in existsb xunfinished (xjobs s) = true -> xsome_enabled s = true.
+  let s := xrun pop W thr s0 sched in existsb xunfinished (xjobs s) = true -> xsome_enabled W s = true.
 Proof.
   intros q0 pop W thr s0 sched Hn HW s. unfold xnew in Hn.
   destruct (Nat.leb 1 pop) eqn:E1; destruct (Nat.leb pop (length q0)) eqn:E2; cbn in Hn; try discriminate. injection Hn as <-.
@@ -180,10 +186,10 @@ Proof.
 Qed.
 Print Assumptions C17_unvalidated_pop_starves_refuted.
 
-(* [qstep] is the extended mechanism restricted to one submit without failures: same states along every schedule
+(* [qstep] is the extended mechanism (serial backend) restricted to one submit without failures: same states along every schedule
    (in particular its guard "pop <= |deque|" is exactly "the group semaphore has a permit") *)
-Theorem C17_ext_refines_mechanism : forall q0 pop W thr n sched, 1 <= pop ->
-  proj (xrun pop W thr (xstep pop W thr (xinit pop q0) (XSubmit n)) (map emb sched)) = qrun pop (qinit q0 n W) sched.
+Theorem C17_ext_refines_mechanism : forall q0 pop W n sched, 1 <= pop ->
+  proj (xrun pop W false (xstep pop W false (xinit pop q0) (XSubmit n)) (map emb sched)) = qrun pop (qinit q0 n W) sched.
 Proof. intros. apply ext_refines_mechanism. assumption. Qed.
 Print Assumptions C17_ext_refines_mechanism.
 
@@ -225,7 +231,13 @@ Example C17_example_ext :
   let s := xrun 2 2 false (xinit 2 [100;101;102;103;104]%Z)
      [XSubmit 4; XTake 0; XRun 0; XTake 1; XRun 1; XFail 0; XTake 2; XClose; XSubmit 2; XTake 4; XRun 4; XTake 5; XRun 5; XFinish 4] in
   map xph (xjobs s) = [XFailed; XCancelled; XCancelled; XCancelled; XDone; XRunning] /\
-  xqueue s = [100; 101; 102]%Z /\ xres (xget s 5) = [103; 104]%Z /\ xmeta s = [(4, [101; 102]%Z)] /\ xperm s = 1.
+  xqueue s = [103; 101; 104]%Z /\ xres (xget s 5) = [100; 102]%Z /\ xmeta s = [(4, [101; 104]%Z)] /\ xperm s = 1.
 Proof. vm_compute. auto 6. Qed.
 Example C17_example_xnew : xnew 2 [1;2;3]%Z <> None /\ xnew 0 [1]%Z = None /\ xnew 2 [1]%Z = None.
 Proof. vm_compute. split; [discriminate| auto]. Qed.
+
+(* thread backend: the pool serves one job at a time with one worker; the second job of another submit waits in the pool *)
+Example C17_example_pool :
+  let s := xrun 1 1 true (xinit 1 [1; 2]%Z) [XSubmit 1; XTake 0; XRun 0; XStart 0; XSubmit 1; XTake 1; XRun 1; XStart 1] in
+  map xph (xjobs s) = [XRunning; XQueued] /\ xbusy s = 1%nat.
+Proof. vm_compute. auto. Qed.
